@@ -3,55 +3,81 @@ edit (regular expression, must match exactly once) to the refactored code. The p
 against rules that stop alarming on refactored code because they no longer see anything (silent for the wrong reason).
 R[pid] = [(name, refactoring dir, file, regex, replacement)]."""
 R = {
- 'C02': [
-  ('table-arith: swapped operands', 'eval2-r3', 'plsql.go', r'return left - right \}', 'return right - left }'),
-  ('table-arith: operator dropped from the table', 'eval2-r3', 'plsql.go', r'\n\tsqlparser.BitXorOp: [^\n]*\n', '\n'),
-  ('inlined-literal: text trimmed', 'eval2-r4', 'plsql.go', r'return NeutalString\(expr.Val\), nil', 'return NeutalString(strings.TrimSpace(expr.Val)), nil'),
+ 'C01': [
+  ('scan helper: early success return', 'pipeline2-r5', 'plsql.go', '\\t\\t\\t\\tslice = append\\(slice, current\\)\\n\\t\\t\\t\\}\\n\\t\\t\\}\\n\\t\\}\\n\\treturn slice, nil', '\t\t\t\tslice = append(slice, current)\n\t\t\t\tif len(slice) > 1000000 {\n\t\t\t\t\treturn slice, nil\n\t\t\t\t}\n\t\t\t}\n\t\t}\n\t}\n\treturn slice, nil'),
+  ('scan helper: returns the source', 'pipeline2-r5', 'plsql.go', '\\t\\t\\t\\tslice = append\\(slice, current\\)\\n\\t\\t\\t\\}\\n\\t\\t\\}\\n\\t\\}\\n\\treturn slice, nil', '\t\t\t\tslice = append(slice, current)\n\t\t\t}\n\t\t}\n\t}\n\treturn query.from, nil'),
+  ('scan helper: stage fed with the source', 'pipeline2-r5', 'plsql.go', 'rs, err := ExecGroupBy\\(query, slice\\)', '_ = slice\n\trs, err := ExecGroupBy(query, query.from)'),
  ],
- 'C18': [
-  ('table-hash: constructors swapped', 'funcs2-r1', 'functions.go', r'"sha1":   sha1.New,\n\t"sha256": sha256.New', '"sha1":   sha256.New,\n\t"sha256": sha1.New'),
+ 'C02': [
+  ('table-arith: swapped operands', 'eval2-r3', 'plsql.go', 'return left - right \\}', 'return right - left }'),
+  ('table-arith: operator dropped from the table', 'eval2-r3', 'plsql.go', '\\n\\tsqlparser.BitXorOp: [^\\n]*\\n', '\n'),
+  ('inlined-literal: text trimmed', 'eval2-r4', 'plsql.go', 'return NeutalString\\(expr.Val\\), nil', 'return NeutalString(strings.TrimSpace(expr.Val)), nil'),
  ],
  'C03': [
-  ('fold-helper: MIN starts from 0', 'funcs2-r2', 'functions.go', r'foldNumbers\(args, math.MaxFloat64, func', 'foldNumbers(args, 0, func'),
-  ('fold-helper: MIN keeps the larger', 'funcs2-r2', 'functions.go', r'if number < min \{\n\t\t\treturn number', 'if number > min {\n\t\t\treturn number'),
-  ('fold-helper: member count off by one', 'funcs2-r2', 'functions.go', r'return folded, allNull, len\(\*slice\), nil', 'return folded, allNull, len(*slice) - 1, nil'),
-  ('fold-helper: NULL members converted', 'funcs2-r2', 'functions.go', r'\t\tif item == nil \{\n\t\t\tcontinue\n\t\t\}\n\t\tnumber, err := ToFloat64\(item\)\n\t\tif err != nil \{\n\t\t\treturn 0, false, 0, err', '\t\tnumber, err := ToFloat64(item)\n\t\tif err != nil {\n\t\t\treturn 0, false, 0, err'),
+  ('fold-helper: MIN starts from 0', 'funcs2-r2', 'functions.go', 'foldNumbers\\(args, math.MaxFloat64, func', 'foldNumbers(args, 0, func'),
+  ('fold-helper: MIN keeps the larger', 'funcs2-r2', 'functions.go', 'if number < min \\{\\n\\t\\t\\treturn number', 'if number > min {\n\t\t\treturn number'),
+  ('fold-helper: member count off by one', 'funcs2-r2', 'functions.go', 'return folded, allNull, len\\(\\*slice\\), nil', 'return folded, allNull, len(*slice) - 1, nil'),
+  ('fold-helper: NULL members converted', 'funcs2-r2', 'functions.go', '\\t\\tif item == nil \\{\\n\\t\\t\\tcontinue\\n\\t\\t\\}\\n\\t\\tnumber, err := ToFloat64\\(item\\)\\n\\t\\tif err != nil \\{\\n\\t\\t\\treturn 0, false, 0, err', '\t\tnumber, err := ToFloat64(item)\n\t\tif err != nil {\n\t\t\treturn 0, false, 0, err'),
+  ('fold-helper (found flag): flag set only for non-zero numbers', 'funcs3-r1', 'functions.go', '\\t\\tacc = step\\(acc, number\\)\\n\\t\\tfound = true', '\t\tacc = step(acc, number)\n\t\tfound = found || number != 0'),
+  ('fold-helper (found flag): MAX ignores the flag', 'funcs3-r1', 'functions.go', '\\tif err != nil \\|\\| !found \\{\\n\\t\\treturn nil, err\\n\\t\\}\\n\\treturn max, nil', '\tif err != nil {\n\t\treturn nil, err\n\t}\n\t_ = found\n\treturn max, nil'),
  ],
- 'C12': [
-  ('plain-document helpers: marker kept', 'eval2-r7', 'heplers.go', r'return ok \|\| key == "<-"', 'return ok'),
- ],
- 'C10': [
-  ('goroutine method: no recover', 'eval2-r5', 'plsql.go', r'\tdefer query.reportPanic\(\)\n\t_, err := function\(query, current, nil, args\)', '\t_, err := function(query, current, nil, args)'),
-  ('goroutine method: Add dropped', 'eval2-r5', 'plsql.go', r'\t\t\tquery.wg.Add\(1\)\n\t\t\tgo query.fireAndForget\(function, current, slice, true\)', '\t\t\tgo query.fireAndForget(function, current, slice, true)'),
-  ('goroutine method: Done not deferred', 'eval2-r5', 'plsql.go', r'\tif tracked \{\n\t\tdefer query.wg.Done\(\)\n\t\}\n\tdefer query.reportPanic\(\)', '\tdefer query.reportPanic()\n\tif tracked {\n\t\tquery.wg.Done()\n\t}'),
- ],
- 'C19': [
-  ('result record: first error never returned', 'joinsel2-r2', 'join.go', r'\tif result.firstErr != nil \{\n\t\treturn nil, result.firstErr\n\t\}\n\treturn result.rows, nil', '\treturn result.rows, nil'),
-  ('result record: fail drops the error', 'joinsel2-r2', 'join.go', r'\tif p.firstErr == nil \{\n\t\tp.firstErr = err\n\t\}\n', '\t_ = err\n'),
-  ('post-processor helper: error skipped', 'pipeline2-r4', 'plsql.go', r'\t\tif err := postProcessor\(\); err != nil \{\n\t\t\treturn err\n\t\t\}\n\t\}\n\treturn nil', '\t\tif err := postProcessor(); err != nil {\n\t\t\tcontinue\n\t\t}\n\t}\n\treturn nil'),
- ],
- 'C14': [
-  ('post-processor helper: not run', 'pipeline2-r4', 'plsql.go', r'\tif err := query.runPostProcessors\(\); err != nil \{\n\t\treturn nil, err\n\t\}\n\treturn rs, nil', '\treturn rs, nil'),
-  ('pending column: other row', 'pipeline2-r3', 'plsql.go', r'column := pendingColumn\{row: data, name: name, value: pending\}', 'column := pendingColumn{row: current, name: name, value: pending}'),
-  ('pending column: pointer stored', 'pipeline2-r3', 'plsql.go', r'\tcolumn.row\[column.name\] = value\n', '\tcolumn.row[column.name] = column.value\n\t_ = value\n'),
-  ('pending column: not registered', 'pipeline2-r3', 'plsql.go', r'query.postProcessors = append\(query.postProcessors, column.settle\)', '_ = column.settle'),
+ 'C04': [
+  ('equi-analysis worklist: only the left operand queued', 'joinsel3-r8', 'join.go', 'pending = append\\(pending, e.Right, e.Left\\)', 'pending = append(pending, e.Left)'),
+  ('equi-analysis worklist: only != rejected', 'joinsel3-r8', 'join.go', '\\t\\t\\t\\tif e.Operator != sqlparser.EqualOp \\{\\n\\t\\t\\t\\t\\treturn false\\n\\t\\t\\t\\t\\}\\n', '\t\t\t\tif e.Operator == sqlparser.NotEqualOp {\n\t\t\t\t\treturn false\n\t\t\t\t}\n'),
+  ('key builder: length without terminator', 'joinsel3-r4', 'join.go', "\\t\\t\\tkey.WriteByte\\(':'\\)\\n", ''),
+  ('key builder: separator instead of length', 'joinsel3-r4', 'join.go', "\\t\\t\\tkey.WriteString\\(strconv.Itoa\\(len\\(text\\)\\)\\)\\n\\t\\t\\tkey.WriteByte\\(':'\\)\\n", '\t\t\tkey.WriteByte(58)\n\t\t\t_ = strconv.Itoa\n'),
  ],
  'C05': [
-  ('window helper: limit not clamped', 'pipeline2-r5', 'plsql.go', r'\tif limit >= len\(rs\) \{\n\t\tlimit = len\(rs\)\n\t\}\n\treturn rs\[:limit\]', '\treturn rs[:limit]'),
-  ('window helper: offset test off by one', 'pipeline2-r5', 'plsql.go', r'\tif offset >= len\(rs\) \{\n\t\treturn nil\n\t\}\n\trs = rs\[offset:\]', '\tif offset > len(rs) {\n\t\treturn nil\n\t}\n\trs = rs[offset+0:]'),
+  ('window helper: limit not clamped', 'pipeline2-r5', 'plsql.go', '\\tif limit >= len\\(rs\\) \\{\\n\\t\\tlimit = len\\(rs\\)\\n\\t\\}\\n\\treturn rs\\[:limit\\]', '\treturn rs[:limit]'),
+  ('window helper: offset test off by one', 'pipeline2-r5', 'plsql.go', '\\tif offset >= len\\(rs\\) \\{\\n\\t\\treturn nil\\n\\t\\}\\n\\trs = rs\\[offset:\\]', '\tif offset > len(rs) {\n\t\treturn nil\n\t}\n\trs = rs[offset+0:]'),
+  ('rowSorter: i and j swapped', 'pipeline3-r4', 'sort.go', 'rs, err := Compare\\(sorter.rows, i, j, sorter.orderBy\\)', 'rs, err := Compare(sorter.rows, j, i, sorter.orderBy)'),
+  ('rowSorter: sorts by the first key only', 'pipeline3-r4', 'sort.go', 'sorter := rowSorter\\{rows: slice, orderBy: orderBy\\}', 'sorter := rowSorter{rows: slice, orderBy: orderBy[:1]}'),
  ],
- 'C01': [
-  ('scan helper: early success return', 'pipeline2-r5', 'plsql.go', r'\t\t\t\tslice = append\(slice, current\)\n\t\t\t\}\n\t\t\}\n\t\}\n\treturn slice, nil', '\t\t\t\tslice = append(slice, current)\n\t\t\t\tif len(slice) > 1000000 {\n\t\t\t\t\treturn slice, nil\n\t\t\t\t}\n\t\t\t}\n\t\t}\n\t}\n\treturn slice, nil'),
-  ('scan helper: returns the source', 'pipeline2-r5', 'plsql.go', r'\t\t\t\tslice = append\(slice, current\)\n\t\t\t\}\n\t\t\}\n\t\}\n\treturn slice, nil', '\t\t\t\tslice = append(slice, current)\n\t\t\t}\n\t\t}\n\t}\n\treturn query.from, nil'),
-  ('scan helper: stage fed with the source', 'pipeline2-r5', 'plsql.go', r'rs, err := ExecGroupBy\(query, slice\)', '_ = slice\n\trs, err := ExecGroupBy(query, query.from)'),
- ],
- 'C13': [
-  ('worklist: only the left operand pushed', 'joinsel2-r4', 'join.go', r'\t\tcase \*sqlparser.AndExpr:\n\t\t\tpending = append\(pending, e.Right, e.Left\)', '\t\tcase *sqlparser.AndExpr:\n\t\t\tpending = append(pending, e.Left)'),
-  ('worklist: one operand unchecked', 'joinsel2-r4', 'join.go', r'\t\t\tif !left \|\| !right \{\n\t\t\t\treturn false\n\t\t\t\}', '\t\t\tif !left {\n\t\t\t\treturn false\n\t\t\t}\n\t\t\t_ = right'),
-  ('worklist: function calls admitted', 'joinsel2-r4', 'join.go', r'\t\tcase sqlparser.BoolVal:\n\t\t\tcontinue\n\t\tdefault:\n\t\t\treturn false', '\t\tcase sqlparser.BoolVal:\n\t\t\tcontinue\n\t\tcase *sqlparser.FuncExpr:\n\t\t\tcontinue\n\t\tdefault:\n\t\t\treturn false'),
+ 'C07': [
+  ('cteThunk record: rows stored as a plain value', 'eval3-r7', 'plsql.go', '\\tthunk.data\\[thunk.cte.ID.String\\(\\)\\] = CteEvaluation\\(func\\(\\) \\(any, error\\) \\{\\n\\t\\treturn rs, nil\\n\\t\\}\\)\\n', '\tthunk.data[thunk.cte.ID.String()] = rs\n'),
+  ('cteThunk record: the evaluating thunk put back', 'eval3-r7', 'plsql.go', '\\tthunk.data\\[thunk.cte.ID.String\\(\\)\\] = CteEvaluation\\(func\\(\\) \\(any, error\\) \\{\\n\\t\\treturn rs, nil\\n\\t\\}\\)\\n', '\tthunk.data[thunk.cte.ID.String()] = CteEvaluation(thunk.evaluate)\n'),
  ],
  'C09': [
-  ('dimension loop: each skips a dimension', 'joinsel2-r7', 'selector.go', r'rs, err := SelectDimension\(item, dimensions\)', 'rs, err := SelectDimension(item, dimensions[1:])'),
-  ('dimension loop: two dimensions dropped', 'joinsel2-r7', 'selector.go', r'\t\tindex := dimensions\[0\]\n\t\tdimensions = dimensions\[1:\]', '\t\tindex := dimensions[0]\n\t\tdimensions = dimensions[2:]'),
+  ('dimension loop: each skips a dimension', 'joinsel2-r7', 'selector.go', 'rs, err := SelectDimension\\(item, dimensions\\)', 'rs, err := SelectDimension(item, dimensions[1:])'),
+  ('dimension loop: two dimensions dropped', 'joinsel2-r7', 'selector.go', '\\t\\tindex := dimensions\\[0\\]\\n\\t\\tdimensions = dimensions\\[1:\\]', '\t\tindex := dimensions[0]\n\t\tdimensions = dimensions[2:]'),
+ ],
+ 'C10': [
+  ('goroutine method: no recover', 'eval2-r5', 'plsql.go', '\\tdefer query.reportPanic\\(\\)\\n\\t_, err := function\\(query, current, nil, args\\)', '\t_, err := function(query, current, nil, args)'),
+  ('goroutine method: Add dropped', 'eval2-r5', 'plsql.go', '\\t\\t\\tquery.wg.Add\\(1\\)\\n\\t\\t\\tgo query.fireAndForget\\(function, current, slice, true\\)', '\t\t\tgo query.fireAndForget(function, current, slice, true)'),
+  ('goroutine method: Done not deferred', 'eval2-r5', 'plsql.go', '\\tif tracked \\{\\n\\t\\tdefer query.wg.Done\\(\\)\\n\\t\\}\\n\\tdefer query.reportPanic\\(\\)', '\tdefer query.reportPanic()\n\tif tracked {\n\t\tquery.wg.Done()\n\t}'),
+  ('cteThunk record: guard not installed', 'eval3-r7', 'plsql.go', '\\tthunk.data\\[thunk.cte.ID.String\\(\\)\\] = CteEvaluation\\(thunk.cycle\\)\\n', ''),
+  ('joinCollector: recover handler dropped', 'joinsel3-r2', 'join.go', '\\tdefer collector.wg.Done\\(\\)\\n\\tdefer collector.recovered\\(\\)\\n\\tcollector.collect\\(j.JoinMatchFunc', '\tdefer collector.wg.Done()\n\tcollector.collect(j.JoinMatchFunc'),
+ ],
+ 'C12': [
+  ('plain-document helpers: marker kept', 'eval2-r7', 'heplers.go', 'return ok \\|\\| key == "<-"', 'return ok'),
+ ],
+ 'C13': [
+  ('worklist: only the left operand pushed', 'joinsel2-r4', 'join.go', '\\t\\tcase \\*sqlparser.AndExpr:\\n\\t\\t\\tpending = append\\(pending, e.Right, e.Left\\)', '\t\tcase *sqlparser.AndExpr:\n\t\t\tpending = append(pending, e.Left)'),
+  ('worklist: one operand unchecked', 'joinsel2-r4', 'join.go', '\\t\\t\\tif !left \\|\\| !right \\{\\n\\t\\t\\t\\treturn false\\n\\t\\t\\t\\}', '\t\t\tif !left {\n\t\t\t\treturn false\n\t\t\t}\n\t\t\t_ = right'),
+  ('worklist: function calls admitted', 'joinsel2-r4', 'join.go', '\\t\\tcase sqlparser.BoolVal:\\n\\t\\t\\tcontinue\\n\\t\\tdefault:\\n\\t\\t\\treturn false', '\t\tcase sqlparser.BoolVal:\n\t\t\tcontinue\n\t\tcase *sqlparser.FuncExpr:\n\t\t\tcontinue\n\t\tdefault:\n\t\t\treturn false'),
+  ('joinCollector: rows appended without the mutex', 'joinsel3-r2', 'join.go', '\\tcase ok:\\n\\t\\t\\{\\n\\t\\t\\tcollector.mut.Lock\\(\\)\\n\\t\\t\\tcollector.slice = append\\(collector.slice, matches...\\)\\n\\t\\t\\tcollector.mut.Unlock\\(\\)', '\tcase ok:\n\t\t{\n\t\t\tcollector.slice = append(collector.slice, matches...)'),
+ ],
+ 'C14': [
+  ('post-processor helper: not run', 'pipeline2-r4', 'plsql.go', '\\tif err := query.runPostProcessors\\(\\); err != nil \\{\\n\\t\\treturn nil, err\\n\\t\\}\\n\\treturn rs, nil', '\treturn rs, nil'),
+  ('pending column: other row', 'pipeline2-r3', 'plsql.go', 'column := pendingColumn\\{row: data, name: name, value: pending\\}', 'column := pendingColumn{row: current, name: name, value: pending}'),
+  ('pending column: pointer stored', 'pipeline2-r3', 'plsql.go', '\\tcolumn.row\\[column.name\\] = value\\n', '\tcolumn.row[column.name] = column.value\n\t_ = value\n'),
+  ('pending column: not registered', 'pipeline2-r3', 'plsql.go', 'query.postProcessors = append\\(query.postProcessors, column.settle\\)', '_ = column.settle'),
+ ],
+ 'C15': [
+  ('non-generic compare: left operand truncated', 'funcs3-r3', 'compare/compare.go', 'return Cmp\\(As\\[float64\\]\\(a\\), t\\)', 'return Cmp(As[int64](a), t)'),
+  ('non-generic compare: float32 dropped from the dispatch', 'funcs3-r3', 'compare/compare.go', 'case int, int32, int64, int16, int8, uint, uint64, uint32, uint16, byte, float32, float64:\\n\\t\\t\\{\\n\\t\\t\\treturn compare\\(a, b\\)', 'case int, int32, int64, int16, int8, uint, uint64, uint32, uint16, byte, float64:\n\t\t{\n\t\t\treturn compare(a, b)'),
+  ('non-generic compare: operands swapped and negated', 'funcs3-r3', 'compare/compare.go', 'return Cmp\\(As\\[float64\\]\\(a\\), t\\)', 'return -Cmp(As[float64](t), a)'),
+ ],
+ 'C18': [
+  ('table-hash: constructors swapped', 'funcs2-r1', 'functions.go', '"sha1":   sha1.New,\\n\\t"sha256": sha256.New', '"sha1":   sha256.New,\n\t"sha256": sha1.New'),
+  ('envelope helper: gob id no longer primed', 'funcs3-r8', 'functions.go', '\\t_ = encodeEnvelope\\(io.Discard, nil\\)\\n', ''),
+ ],
+ 'C19': [
+  ('result record: first error never returned', 'joinsel2-r2', 'join.go', '\\tif result.firstErr != nil \\{\\n\\t\\treturn nil, result.firstErr\\n\\t\\}\\n\\treturn result.rows, nil', '\treturn result.rows, nil'),
+  ('result record: fail drops the error', 'joinsel2-r2', 'join.go', '\\tif p.firstErr == nil \\{\\n\\t\\tp.firstErr = err\\n\\t\\}\\n', '\t_ = err\n'),
+  ('post-processor helper: error skipped', 'pipeline2-r4', 'plsql.go', '\\t\\tif err := postProcessor\\(\\); err != nil \\{\\n\\t\\t\\treturn err\\n\\t\\t\\}\\n\\t\\}\\n\\treturn nil', '\t\tif err := postProcessor(); err != nil {\n\t\t\tcontinue\n\t\t}\n\t}\n\treturn nil'),
+  ('rowSorter: comparator error ignored', 'pipeline3-r4', 'sort.go', '\\tif err != nil \\{\\n\\t\\tpanic\\(err\\)\\n\\t\\}\\n\\treturn rs\\n', '\t_ = err\n\treturn rs\n'),
+  ('joinCollector: error not kept', 'joinsel3-r2', 'join.go', '\\t\\t\\tcollector.mut.Lock\\(\\)\\n\\t\\t\\tif collector.firstErr == nil \\{\\n\\t\\t\\t\\tcollector.firstErr = err\\n\\t\\t\\t\\}\\n\\t\\t\\tcollector.mut.Unlock\\(\\)', '\t\t\t_ = err'),
+  ('joinCollector: first error never returned', 'joinsel3-r2', 'join.go', '\\tif collector.firstErr != nil \\{\\n\\t\\treturn nil, collector.firstErr\\n\\t\\}\\n\\treturn collector.slice, nil', '\treturn collector.slice, nil'),
  ],
 }
